@@ -536,17 +536,37 @@ def run_queue_check(prop, tier, seed):
             if o != "acc %d ref %d q %d" % (capn, extra, capn):
                 failures.append((len(c), c, o, "a queue of capacity %d with its worker busy: %s (expected exactly %d accepted, %d refused)" % (
                     capn, o, capn, extra)))
-    if prop == "C11":
+    if prop in ("C08", "C16"):
+        # producers that are themselves worker threads of a queuing sink: chained sinks, and an error handler that counts
+        # failures through a clone of the same sink
+        qw = ["QW n u", "QW n 1", "QW n 4", "QW h u"]
+        try:
+            qwo = common.run_harness("queue", qw, shards=2)
+        except common.CheckFailure as e:
+            qwo = ["bad the process running the case died: " + str(e)[-300:].replace("\n", " ")] * len(qw)
+        for c, o in zip(qw, qwo):
+            if o != "ok":
+                for part in o[4:].split(" / "):
+                    pid = "C16" if "the handler ran" in part else "C08"
+                    if pid == prop:
+                        failures.append((len(c), c, o, "emits made on a worker thread: " + part[:400]))
+        rep.cov["worker_thread_producers"] = qw
+    if prop in ("C11", "C15"):
         # tens of thousands of panics over the life of one sink (a worker that is restarted on its own stack, or a restart
-        # budget, only shows after that many); each soak in its own process, which a stack overflow would kill
+        # budget, only shows after that many); each soak in its own process, which a stack overflow would kill.  C15: the
+        # counters at the quiescent end of the soak
         qp = ["QP u 32000 8", "QP 4 9000 3"] + (["QP u 120000 8", "QP 64 60000 2"] if thorough else [])
+        if prop == "C15":
+            qp = qp[1:2] + qp[3:]
         for c in qp:
             try:
                 o = common.run_harness("queue", [c], shards=1, env={"VERIF_CASE_TIMEOUT": "150"})[0]
             except common.CheckFailure as e:
                 o = "bad the process running the case died: " + str(e)[-300:].replace("\n", " ")
             if not o.startswith("ok"):
-                failures.append((len(c), c, o, "panic soak: " + o[:300]))
+                parts = [x for x in o[4:].split(" / ") if ("at quiescence" in x) == (prop == "C15")]
+                if parts:
+                    failures.append((len(c), c, o, "panic soak: " + " / ".join(parts)[:300]))
         rep.cov["panic_soaks"] = qp
     for c, o in zip(soak, simpl):
         if not o.startswith("ok"):
@@ -649,8 +669,8 @@ def check_C16(tier, seed):
 def _replay_judge(prop, case, obs):
     if case.startswith("QH"):
         return [m for p, m in judge_schedule(case, obs) if p == prop]
-    if case.startswith("QS"):
-        return [] if obs.startswith("ok") else [obs[:300]]
+    if case.startswith("QS") or case.startswith("QW") or case.startswith("QP") or case.startswith("QB"):
+        return [] if obs.startswith("ok") or obs.startswith("acc ") else [obs[:300]]
     return [m for p, m in judge(case, obs) if p == prop]
 
 
